@@ -481,6 +481,50 @@ fn long_ruleset_leg(n: usize, acc: &mut Acc) {
 }
 
 
+
+/// an input whose serialization is observable: every call of `serialize` yields the next tick.
+/// One evaluation reads its input once, so all rules of that evaluation see the same tick.
+struct Ticking(std::sync::atomic::AtomicU64);
+impl Serialize for Ticking {
+    fn serialize<S: serde::Serializer>(&self, s: S) -> Result<S::Ok, S::Error> {
+        use serde::ser::SerializeStruct;
+        let t = self.0.fetch_add(1, std::sync::atomic::Ordering::SeqCst);
+        let mut st = s.serialize_struct("Ticking", 1)?;
+        st.serialize_field("tick", &t)?;
+        st.end()
+    }
+}
+
+pub fn single_read_leg(acc: &mut Acc) {
+    for n_rules in [1usize, 2, 5, 40] {
+        let rules: Vec<Rule> = (0..n_rules).map(|i| Rule::new(format!("t{i}"), BTreeMap::new(), if i % 2 == 0 { Expr::reff("tick") } else { Expr::index(Expr::reff("facts"), reval::expr::Index::Map("tick".into())) })).collect();
+        let rs = match ruleset().with_rules(rules) {
+            Ok(b) => b.build(),
+            Err(e) => return acc.machinery(format!("single-read leg: {e}")),
+        };
+        let facts = Ticking(std::sync::atomic::AtomicU64::new(100));
+        for round in 0..3u64 {
+            acc.count("executions", 1);
+            let got = crate::engine::panic::catch(|| crate::engine::exec::block_on(rs.evaluate(&facts)));
+            let shown: Vec<String> = match &got {
+                Ok(Ok(Ok(out))) => out.iter().map(|o| format!("{:?}", o.value.as_ref().map_err(|e| e.to_string()))).collect(),
+                other => vec![format!("{:?}", other.as_ref().map(|r| r.as_ref().map(|x| x.as_ref().map(|o| o.len()).map_err(|e| e.to_string()))))],
+            };
+            let want: Vec<String> = (0..n_rules).map(|_| format!("Ok(Int({}))", 100 + round)).collect();
+            if shown != want {
+                acc.violation(Violation {
+                    sig: "single-read/outcomes".into(),
+                    what: format!("evaluate(&T) of {n_rules} rules on an input whose every serialization yields the next tick (evaluation {round}): outcomes {shown:?}, one reading of the input gives {want:?}"),
+                    case: json!({"kind": "single-read"}),
+                    size: n_rules,
+                });
+                return;
+            }
+        }
+    }
+    acc.outcome("single-read");
+}
+
 /// extra metadata keys a ruleset implementation might give a meaning to
 const META_WORDS: [&str; 64] = [
     "enabled", "disabled", "active", "inactive", "skip", "skipped", "ignore", "ignored", "hidden", "deprecated", "priority", "weight", "stop", "final", "halt", "terminal", "tags", "tag", "category", "severity",
@@ -588,6 +632,12 @@ pub fn run(tier: Tier) -> i32 {
     let mut rep = Report::new("C09", tier);
     {
         let mut acc = Acc::new();
+        single_read_leg(&mut acc);
+        rep.bound("single_read_leg", "an input whose serialization counts its calls, 1 / 2 / 5 / 40 rules, three evaluations: every rule of one evaluation sees the same reading");
+        rep.absorb(acc);
+    }
+    {
+        let mut acc = Acc::new();
         let n = metadata_leg(&mut acc);
         rep.bound("metadata_leg", format!("{n} rules: one per (metadata key from {} words, value from 15, construction route)", META_WORDS.len() + super::c15::PLAUSIBLE_WORDS.len()));
         rep.absorb(acc);
@@ -601,6 +651,13 @@ pub fn run(tier: Tier) -> i32 {
             members = r.members;
             rep.absorb(r.acc);
         }
+        for reverse in [false, true] {
+            rep.absorb(super::crowd::run_constant_crowd(reverse).acc);
+        }
+        let fc = super::crowd::run_function_crowd();
+        rep.bound("function_crowd", format!("{} functions with names of mixed byte / character length, three registration orders, one rule calling each", fc.members));
+        rep.absorb(fc.acc);
+        rep.bound("constant_crowd_rules", "the same near-equal values as constant rules (alone and in a list with a field) of a ruleset without functions, both orders");
         rep.bound("argument_crowd_rules", format!("{members} rules `echo(<argument>)` over the near-equal argument families, one cacheable identity function, both orders"));
     }
     {
@@ -692,8 +749,21 @@ pub fn run(tier: Tier) -> i32 {
 }
 
 pub fn replay(case: &serde_json::Value) -> i32 {
-    if case.get("kind").and_then(|k| k.as_str()) == Some("argument-crowd") {
+    if matches!(case.get("kind").and_then(|k| k.as_str()), Some("argument-crowd") | Some("constant-crowd") | Some("function-crowd")) {
         return super::crowd::replay(case);
+    }
+    if case.get("kind").and_then(|k| k.as_str()) == Some("single-read") {
+        let mut acc = Acc::new();
+        single_read_leg(&mut acc);
+        return if acc.violations.is_empty() {
+            println!("verdict: holds");
+            0
+        } else {
+            for v in acc.violations.values() {
+                println!("verdict: VIOLATED — {}", v.what);
+            }
+            1
+        };
     }
     if case.get("kind").and_then(|k| k.as_str()) == Some("metadata") {
         let mut acc = Acc::new();
